@@ -13,7 +13,7 @@ from vlib.runner import Outcome, hyp_search
 ID = "C11"
 LEVEL = "exploration"
 RULE = ("Hypothesis draws 1-3 page documents: text lines whose glyph text (via a ToUnicode CMap) ranges over letters, "
-        "XML specials & < > \" ', non-BMP characters, combining marks, TAB/CR and (with strip_control) C0 control "
+        "XML specials & < > \" ', non-BMP characters (horizontal simple font and a vertical composite font), combining marks, TAB/CR and (with strip_control) C0 control "
         "characters; font names and form-XObject names containing XML specials; rect/line/curve shapes with "
         "fractional line widths; an image; nested forms; LAParams in {None, default, all_texts, boxes_flow=None, "
         "detect_vertical}; output_type text or xml; sink StringIO or BytesIO with codec utf-8 / utf-16 / utf-16-le / "
@@ -43,9 +43,19 @@ def build_pdf(case):
                    FontDescriptor=W.D(Type=W.N("FontDescriptor"), FontName=W.N(case["fontname"].encode("utf-8")), Flags=32,
                                       FontBBox=[0, 0, 1000, 1000], Ascent=800, Descent=-200))
     objs[11] = W.Stream({}, cmap)
+    # a vertical composite font over the same alphabet (2-byte codes): glyph boxes are not square (DW2 w1y = -500)
+    cmap2, _ = F.tounicode_cmap(mapping, codelen=2)
+    objs[13] = W.D(Type=W.N("Font"), Subtype=W.N("Type0"), BaseFont=W.N("Vert"), Encoding=W.N("Identity-V"),
+                   DescendantFonts=[W.R(14)], ToUnicode=W.R(16))
+    objs[14] = W.D(Type=W.N("Font"), Subtype=W.N("CIDFontType2"), BaseFont=W.N("Vert"),
+                   CIDSystemInfo=W.D(Registry=b"Adobe", Ordering=b"Identity", Supplement=0), DW2=[880, -500],
+                   FontDescriptor=W.R(15))
+    objs[15] = W.D(Type=W.N("FontDescriptor"), FontName=W.N(case["fontname"].encode("utf-8") + b"V"), Flags=4,
+                   FontBBox=[0, -200, 1000, 900], Ascent=800, Descent=-200)
+    objs[16] = W.Stream({}, cmap2)
     objs[12] = W.Stream(W.D(Type=W.N("XObject"), Subtype=W.N("Image"), Width=2, Height=2, ColorSpace=W.N("DeviceGray"),
                             BitsPerComponent=8), b"\x00\x40\x80\xff")
-    fonts = {b"F1": W.R(10)}
+    fonts = {b"F1": W.R(10), b"F2": W.R(13)}
     forms = case.get("forms", [])
     xobj = {b"Im0": W.R(12)}
     for i, f in enumerate(forms):
@@ -70,8 +80,12 @@ def content_bytes(items, xobj):
     for it in items:
         k = it["k"]
         if k == "text":
-            codes = bytes(33 + c for c in it["codes"])
-            out.append(b"BT /F1 %d Tf %d %d Td <%s> Tj ET" % (it["size"], it["x"], it["y"], codes.hex().encode()))
+            if it.get("font") == "F2":
+                codes = b"".join((33 + c).to_bytes(2, "big") for c in it["codes"])
+            else:
+                codes = bytes(33 + c for c in it["codes"])
+            out.append(b"BT /%s %d Tf %d %d Td <%s> Tj ET" % (it.get("font", "F1").encode(), it["size"], it["x"], it["y"],
+                                                             codes.hex().encode()))
         elif k == "rect":
             out.append(b"%s w %d %d %d %d re S" % (str(it["lw"]).encode(), it["x"], it["y"], it["w"], it["h"]))
         elif k == "line":
@@ -319,7 +333,8 @@ def items(draw, nalpha, form_names, depth=0):
         k = draw(st.integers(0, 9))
         if k <= 5:
             out.append({"k": "text", "x": draw(st.sampled_from([50, 50, 300])), "y": y, "size": draw(st.sampled_from([10, 12])),
-                        "codes": draw(st.lists(st.integers(0, nalpha - 1), min_size=1, max_size=8))})
+                        "codes": draw(st.lists(st.integers(0, nalpha - 1), min_size=1, max_size=8)),
+                        "font": draw(st.sampled_from(["F1", "F1", "F1", "F2"]))})
             y -= draw(st.sampled_from([12, 14, 40, 90]))
         elif k == 6:
             out.append({"k": draw(st.sampled_from(["rect", "line", "curve"])), "x": draw(st.integers(10, 300)),
